@@ -540,4 +540,68 @@ Proof.
   apply nf_bind; [nf0 cost_setlo|]. intros _. apply nf_bind; [nf0 cost_setm|intros _; apply nf_ret].
 Qed.
 
+
+(* clone, clone_from, == *)
+Lemma nf_clone_elems l : forall acc, nf (clone_elems l acc).
+Proof.
+  induction l as [|e l IH]; intros acc; cbn [clone_elems]; [apply nf_ret|].
+  apply nf_bind; [apply nf_on_unwind; [nf0 cost_cb|nf0 cost_drop_elems]|]. intros _.
+  apply nf_bind; [apply nf_on_unwind; [nf0 cost_cb|]|intros _; apply IH].
+  apply nf_bind; [nf0 cost_drop_key|intros _; nf0 cost_drop_elems].
+Qed.
+
+Lemma nf_hb_clone t : nf (hb_clone t).
+Proof.
+  unfold hb_clone. destruct (_ =? _); [apply nf_ret|].
+  apply nf_bind; [apply (nf_of_cost _ _ cost_tick_alloc)|]. intros _.
+  apply nf_bind; [apply nf_on_unwind; [apply nf_clone_elems|apply (nf_of_cost _ _ cost_tick_free)]|intros _; apply nf_ret].
+Qed.
+
+Lemma nf_and_carry : forall l t, nf (and_carry c t l).
+Proof.
+  induction l as [|e l IH]; intros t; cbn [and_carry]; [apply nf_ret|].
+  apply nf_bind; [apply (nf_of_cost _ _ cost_tick_hash)|]. intros _. apply nf_bind; [nf0 cost_cb|]. intros _.
+  apply nf_bind; [apply nf_on_unwind; [nf0 cost_cb|nf0 cost_drop_key]|]. intros _.
+  apply nf_bind; [apply nf_hb_insert|intros t'; apply IH].
+Qed.
+
+Lemma nf_rt_clone : nf (rt_clone c).
+Proof.
+  unfold rt_clone. apply nf_bind; [nf0 cost_getm|]. intros t. apply nf_bind; [nf0 cost_getlo|]. intros o.
+  apply nf_bind; [apply nf_hb_clone|]. intros nt. apply nf_bind; [apply nf_cursor_view|]. intros l.
+  apply nf_bind; [apply nf_and_carry|intros nt'; apply nf_ret].
+Qed.
+
+Lemma nf_hb_clone_from t sm : nf (hb_clone_from_with_hasher t sm).
+Proof.
+  unfold hb_clone_from_with_hasher. destruct (_ && _).
+  - apply nf_bind; [apply nf_hb_clear|]. intros t1. apply nf_bind.
+    + apply nf_iterM. intros e. apply nf_bind; [nf0 cost_cb|]. intros _.
+      apply nf_bind; [apply nf_on_unwind; [nf0 cost_cb|nf0 cost_drop_key]|]. intros _.
+      apply nf_on_unwind; [apply (nf_of_cost _ _ cost_tick_hash)|nf0 cost_drop_elem].
+    + intros _. destruct (_ <? _); [apply (nf_of_cost dz), cost_unwind; discriminate|apply nf_ret].
+  - destruct (_ =? 1).
+    + apply nf_bind; [nf0 cost_drop_elems|]. intros _. apply nf_bind; [apply (nf_of_cost _ _ (cost_hb_free _))|intros _; apply nf_ret].
+    + apply nf_bind; [nf0 cost_drop_elems|]. intros _.
+      apply nf_bind; [apply nf_when; apply nf_bind; [apply (nf_of_cost _ _ cost_tick_alloc)|intros _; apply (nf_of_cost _ _ (cost_hb_free _))]|]. intros _.
+      apply nf_bind; [apply nf_clone_elems|intros _; apply nf_ret].
+Qed.
+
+Lemma nf_rt_clone_from src : nf (rt_clone_from c src).
+Proof.
+  unfold rt_clone_from. apply nf_bind; [apply (nf_of_cost _ _ cost_free_old)|]. intros _.
+  apply nf_bind; [nf0 cost_getm|]. intros t. apply nf_bind; [nf0 cost_setm|]. intros _.
+  apply nf_bind; [apply nf_hb_clone_from|]. intros t'. apply nf_bind; [nf0 cost_setm|]. intros _.
+  apply nf_bind; [apply nf_cursor_view|]. intros l. apply nf_bind; [apply nf_and_carry|intros t''; nf0 cost_setm].
+Qed.
+
+Lemma nf_map_equal other : nf (map_equal other).
+Proof.
+  unfold map_equal. apply nf_bind; [nf0 cost_get|]. intros s0. destruct (negb _); [apply nf_ret|].
+  apply nf_bind; [apply nf_rt_iter|]. intros l.
+  induction l as [|x l IH]; [apply nf_ret|].
+  apply nf_bind; [apply (nf_of_cost _ _ cost_tick_hash)|]. intros _.
+  destruct (rt_find_pure other _) as [[im e']|]; [|apply nf_ret]. destruct (_ =? _); [exact IH|apply nf_ret].
+Qed.
+
 End CostRaw.
